@@ -33,8 +33,11 @@ State of the code (after the repairs `1c1d11d` session start / `FsmExecutor::shu
   `C17_old_invoke_rejected`) although they do deadlock in the model
   (`C17_old_start_deadlocks`, `C17_old_invoke_deadlocks`: what the repair removed).
 * `C17_minimal_cycles`, `C17_all_cycles`: the **only** cycle left is the self-loop `D → D` (a data
-  cell locked while a data cell that may be the same one is held: expression evaluation `a[a]`,
-  `a = a`, cf. C11).  `C17_full` is therefore still **false**: `C17_counterexample_D_D`.
+  cell locked while a data cell that may be the same one is held.  Its instances inside
+  rfsm-expressions — `a[a]`, `a = a`, `a ?= a`, `a == [a]`, cf. C11 — are repaired: those lock
+  sites hold no other cell any more; the edge stays in the table through the calling contexts in
+  which the *caller* of an evaluation holds a cell, and `DataArc::eq` still locks both sides while
+  it descends).  `C17_full` is therefore still **false**: `C17_counterexample_D_D`.
 * `C17_modulo_relock` — proved for the **whole** table of the code as it is now: every conforming
   system in which no thread requests a lock it is holding is deadlock-free under every schedule and,
   if balanced, can always step and finish.  `C17_deadlock_needs_relock`: a reachable deadlock of a
@@ -352,8 +355,9 @@ theorem C17_old_invoke_rejected : systemConforms edges noPriv cexGPold = false :
 
 /-! ### the remaining counterexample: re-locking a data cell -/
 
-/-- `a[a]` in an rfsm-expression (`ExpressionIndex::execute#0/#1`; also `a = a`, `a ?= a`): the cell
-of `a` is held, the same cell is locked again -/
+/-- a data cell is held and the same cell is locked again: what the edge `D → D any` of the table
+admits (an expression evaluated while its caller holds a cell of the session; `DataArc::eq` on
+cyclic data).  The former instances `a[a]`, `a = a`, `a ?= a` inside expressions are repaired. -/
 def cexDD : List (List (Op Lk)) := [[.acquire (lkD 5), .acquire (lkD 5), .release (lkD 5), .release (lkD 5)]]
 
 theorem C17_cexDD_conforms : systemConforms edges cellsOf0 cexDD = true := by decide
